@@ -155,6 +155,32 @@ Definition stream_read (bs : list Z) : option (nat * tail) :=
   | (m :: r, t) => if fb_header_type (fst m) =? 1 then Some (count_batches r t) else None
   end.
 
+(* StreamDecoder (push based, arrow-ipc/src/reader/stream.rs): the same framing, but `finish` accepts the
+   end of the input only exactly at a message boundary or right after an end-of-stream marker, and
+   input after the marker is an error.  [decode_rest] = the bytes left where the framing loop stops. *)
+Fixpoint decode_rest (fuel : nat) (bs : list Z) : list Z :=
+  match fuel with
+  | O => bs
+  | S f => match next_message fb_body_len bs with
+           | SMsg _ rest => decode_rest f rest
+           | _ => bs
+           end
+  end.
+Definition clean_rest (rest : list Z) : tail :=
+  if list_eq_dec Z.eq_dec rest [] then End
+  else if list_eq_dec Z.eq_dec rest eos then End
+  else if list_eq_dec Z.eq_dec rest [0; 0; 0; 0] then End
+  else Err.
+Definition push_read (bs : list Z) : nat * tail :=
+  let rest := decode_rest (S (length bs)) bs in
+  match decode_all fb_body_len bs with
+  | ([], _) => (O, clean_rest rest)
+  | (m :: r, _) =>
+      if fb_header_type (fst m) =? 1
+      then let '(n, t) := count_batches r End in (n, match t with Err => Err | End => clean_rest rest end)
+      else (O, Err)
+  end.
+
 (* ------------------------------------------------------------------ footers *)
 Definition last_n (n : nat) (l : list Z) : list Z := skipn (length l - n) l.
 
